@@ -28,6 +28,9 @@ pub enum Place {
     ValueRefs,
     /// endpoints spelled as named numbers of the INTEGER itself
     NamedNumbers,
+    /// `T ::= Nn-Parent (n0..n5)`: named numbers of a *referenced* INTEGER type, while two other
+    /// types (sorting before and after) declare the same identifiers with other numbers
+    NamedViaRef,
 }
 
 #[derive(Clone, Debug, PartialEq, Eq, Hash, serde::Serialize, serde::Deserialize)]
@@ -38,6 +41,10 @@ pub struct Case {
     /// size hosts: write the extension marker after the SIZE element, `(SIZE(1..5), ...)`, instead of inside it
     #[serde(default)]
     pub outer_marker: bool,
+    /// Place::OnParent only: the constrained reference is the type of a SEQUENCE component,
+    /// `T ::= SEQUENCE { f Parent-Int (expr) }`, instead of a type assignment
+    #[serde(default)]
+    pub ref_component: bool,
 }
 
 const PARENT_LO: i128 = -1;
@@ -213,6 +220,7 @@ fn case_text(i: usize, c: &Case) -> String {
         (Host::SetOf, _) => format!("SET {cons_s} OF BOOLEAN"),
         (Host::Integer, Place::OnParent) => format!("Parent-Int {cons_s}"),
         (Host::Integer, Place::ValueRefs) => format!("INTEGER {}", cons_text(&spell_refs(&c.cons, "v"))),
+        (Host::Integer, Place::NamedViaRef) => format!("Nn-Parent {}", cons_text(&spell_refs(&c.cons, "n"))),
         (Host::Integer, Place::NamedNumbers) => format!(
             "INTEGER {{ nm1(-1), n0(0), n1(1), n5(5), n300(300) }} {}",
             cons_text(&spell_refs(&c.cons, "n"))
@@ -221,11 +229,12 @@ fn case_text(i: usize, c: &Case) -> String {
     };
     match c.place {
         Place::Component => format!("T{i} ::= SEQUENCE {{ f {ty} }}"),
+        Place::OnParent if c.ref_component => format!("T{i} ::= SEQUENCE {{ f {ty} }}"),
         _ => format!("T{i} ::= {ty}"),
     }
 }
 
-const PRELUDE: &str = "Parent-Int ::= INTEGER (-1..300)\nvm1 INTEGER ::= -1\nv0 INTEGER ::= 0\nv1 INTEGER ::= 1\nv5 INTEGER ::= 5\nv300 INTEGER ::= 300\n";
+const PRELUDE: &str = "Aa-Decoy ::= INTEGER { nm1(7), n0(8), n1(9), n5(10), n300(11) }\nNn-Parent ::= INTEGER { nm1(-1), n0(0), n1(1), n5(5), n300(300) }\nZz-Decoy ::= INTEGER { nm1(17), n0(18), n1(19), n5(20), n300(21) }\nParent-Int ::= INTEGER (-1..300)\nvm1 INTEGER ::= -1\nv0 INTEGER ::= 0\nv1 INTEGER ::= 1\nv5 INTEGER ::= 5\nv300 INTEGER ::= 300\n";
 
 fn module_text(cases: &[Case]) -> String {
     let mut s = String::from("Con-Mod DEFINITIONS AUTOMATIC TAGS ::= BEGIN\n");
@@ -294,6 +303,10 @@ fn observe(m: &RModule, i: usize, c: &Case) -> Result<Emitted, String> {
     };
     match c.place {
         Place::Component => {
+            let f = s.fields.first().ok_or("no field")?;
+            from_attrs(&f.attrs)
+        }
+        Place::OnParent if c.ref_component => {
             let f = s.fields.first().ok_or("no field")?;
             from_attrs(&f.attrs)
         }
@@ -585,7 +598,7 @@ fn classify(c: &Case, _r: &rcon::Effective, e: &Emitted, clause: &str) -> Option
 
 fn nontrivial(c: &Case) -> bool {
     let ops: usize = c.cons.iter().map(|k| k.root.unions.iter().map(|u| u.iter().map(|x| 1 + x.except.is_some() as usize).sum::<usize>()).sum::<usize>()).sum();
-    ops >= 2 || c.cons.len() >= 2 || matches!(c.place, Place::ValueRefs | Place::NamedNumbers | Place::OnParent)
+    ops >= 2 || c.cons.len() >= 2 || matches!(c.place, Place::ValueRefs | Place::NamedNumbers | Place::NamedViaRef | Place::OnParent)
 }
 
 fn run_cases(ctx: &mut Ctx, cases: Vec<Case>, stats: &mut std::collections::BTreeMap<String, (u64, Vec<String>)>) {
@@ -711,12 +724,13 @@ fn random_case(src: &mut Src) -> Case {
         cons.push(Con { root: ESet { all_except: None, unions, words: src.chance(20) }, ext: src.chance(25), add: None });
     }
     let place = if host == Host::Integer {
-        [Place::Assignment, Place::Component, Place::OnParent, Place::ValueRefs, Place::NamedNumbers][src.pick(5)]
+        [Place::Assignment, Place::Component, Place::OnParent, Place::ValueRefs, Place::NamedNumbers, Place::NamedViaRef][src.pick(6)]
     } else {
         [Place::Assignment, Place::Component][src.pick(2)]
     };
     let outer_marker = host != Host::Integer && src.chance(30);
-    Case { host, place, cons, outer_marker }
+    let ref_component = place == Place::OnParent && src.chance(50);
+    Case { host, place, cons, outer_marker, ref_component }
 }
 
 pub fn run(tier: Tier, seed: u64, replay: Option<String>) -> i32 {
@@ -760,7 +774,7 @@ pub fn run(tier: Tier, seed: u64, replay: Option<String>) -> i32 {
                     if n == 3 && place == Place::Component {
                         continue;
                     }
-                    cases.push(Case { host: Host::Integer, place, cons: vec![with_ext(e.clone(), ext)], outer_marker: false });
+                    cases.push(Case { host: Host::Integer, place, cons: vec![with_ext(e.clone(), ext)], outer_marker: false, ref_component: false });
                 }
             }
         }
@@ -773,9 +787,9 @@ pub fn run(tier: Tier, seed: u64, replay: Option<String>) -> i32 {
                         if n == 2 && tier == Tier::Quick && !(host == Host::OctetString || host == Host::SeqOf) {
                             continue;
                         }
-                        cases.push(Case { host, place, cons: vec![with_ext(e.clone(), ext)], outer_marker: false });
+                        cases.push(Case { host, place, cons: vec![with_ext(e.clone(), ext)], outer_marker: false, ref_component: false });
                         if ext {
-                            cases.push(Case { host, place, cons: vec![with_ext(e.clone(), ext)], outer_marker: true });
+                            cases.push(Case { host, place, cons: vec![with_ext(e.clone(), ext)], outer_marker: true, ref_component: false });
                         }
                     }
                 }
@@ -787,7 +801,7 @@ pub fn run(tier: Tier, seed: u64, replay: Option<String>) -> i32 {
     for a in &ones {
         for b in &ones {
             for (ea, eb) in [(false, false), (true, false), (false, true)] {
-                cases.push(Case { host: Host::Integer, place: Place::Assignment, cons: vec![with_ext(a.clone(), ea), with_ext(b.clone(), eb)], outer_marker: false });
+                cases.push(Case { host: Host::Integer, place: Place::Assignment, cons: vec![with_ext(a.clone(), ea), with_ext(b.clone(), eb)], outer_marker: false, ref_component: false });
             }
         }
     }
@@ -796,9 +810,10 @@ pub fn run(tier: Tier, seed: u64, replay: Option<String>) -> i32 {
             if n == 2 && tier == Tier::Quick && k % 5 != 0 {
                 continue;
             }
-            for place in [Place::OnParent, Place::ValueRefs, Place::NamedNumbers] {
-                cases.push(Case { host: Host::Integer, place, cons: vec![with_ext(e.clone(), false)], outer_marker: false });
+            for place in [Place::OnParent, Place::ValueRefs, Place::NamedNumbers, Place::NamedViaRef] {
+                cases.push(Case { host: Host::Integer, place, cons: vec![with_ext(e.clone(), false)], outer_marker: false, ref_component: false });
             }
+            cases.push(Case { host: Host::Integer, place: Place::OnParent, cons: vec![with_ext(e.clone(), false)], outer_marker: false, ref_component: true });
         }
     }
     ctx.extra.insert("exhaustive_cases".into(), json!(cases.len()));
